@@ -97,6 +97,44 @@ theorem C03_integrate_scale_fn (grids : List (Array ℚ)) (fr nm : List Bool) (u
       = integrateFn (sweepFn grids fr nm use eps) tf Pf T fuel t Pc φ :=
   integrateFn_scaled _ tf Pf T k hk (fun P dt φ => sweepFn_scaled grids fr nm use eps P dt k hk φ) fuel t Pc φ
 
+/-! ### from the density to the spectrum
+`Spectrum.from_phi` is a linear functional of the density on each of its code paths (`C05_ND_linear`, `C05_direct_linear`,
+`C05_inbreeding_linear` in Props/C05.lean prove exactly the hypothesis `hS` below for the semi-analytic, direct and inbreeding
+paths, entry by entry; `lin a b φ ψ` is definitionally `fun js => a * φ js + b * ψ js`).  Stated for any such functional so that this
+file does not depend on the sampling model. -/
+
+/-- **(φ, θ0) ↦ spectrum entry is linear**: integrate (any duration, any number of steps), then apply a linear sampling functional -/
+theorem C03_spectrum_linear (S : (List ℕ → ℚ) → ℚ) (hS : ∀ a b φ ψ, S (lin a b φ ψ) = a * S φ + b * S ψ)
+    (grids : List (Array ℚ)) (fr nm : List Bool) (use : Bool) (eps : ℕ → List ℕ → ℕ → ℚ)
+    (tf : ℚ) (pops : List PopParams) (β : Option ℚ) (θ1 θ2 T a b : ℚ) (fuel : ℕ) (t : ℚ) (φ1 φ2 : List ℕ → ℚ) :
+    S (integrateConst (sweepFn grids fr nm use eps) tf ⟨pops, a * θ1 + b * θ2, β⟩ T fuel t (lin a b φ1 φ2))
+      = a * S (integrateConst (sweepFn grids fr nm use eps) tf ⟨pops, θ1, β⟩ T fuel t φ1)
+        + b * S (integrateConst (sweepFn grids fr nm use eps) tf ⟨pops, θ2, β⟩ T fuel t φ2) := by
+  rw [C03_integrate_linear_const, hS]
+
+/-- the same with time-dependent parameters -/
+theorem C03_spectrum_linear_fn (S : (List ℕ → ℚ) → ℚ) (hS : ∀ a b φ ψ, S (lin a b φ ψ) = a * S φ + b * S ψ)
+    (grids : List (Array ℚ)) (fr nm : List Bool) (use : Bool) (eps : ℕ → List ℕ → ℕ → ℚ)
+    (tf : ℚ) (popsf : ℚ → List PopParams) (βf : ℚ → Option ℚ) (θ1f θ2f : ℚ → ℚ) (T a b : ℚ)
+    (fuel : ℕ) (t : ℚ) (pc : List PopParams) (βc : Option ℚ) (θ1 θ2 : ℚ) (φ1 φ2 : List ℕ → ℚ) :
+    S (integrateFn (sweepFn grids fr nm use eps) tf (fun τ => ⟨popsf τ, a * θ1f τ + b * θ2f τ, βf τ⟩) T fuel t
+          ⟨pc, a * θ1 + b * θ2, βc⟩ (lin a b φ1 φ2))
+      = a * S (integrateFn (sweepFn grids fr nm use eps) tf (fun τ => ⟨popsf τ, θ1f τ, βf τ⟩) T fuel t ⟨pc, θ1, βc⟩ φ1)
+        + b * S (integrateFn (sweepFn grids fr nm use eps) tf (fun τ => ⟨popsf τ, θ2f τ, βf τ⟩) T fuel t ⟨pc, θ2, βc⟩ φ2) := by
+  rw [C03_integrate_linear_fn, hS]
+
+/-- **the spectrum is invariant under the reference-size re-scaling** (ν,T,m,γ,θ0) ↦ (kν,kT,m/k,γ/k,θ0/k): whatever is computed
+    from the final density (any `S`, linear or not: sampling, folding, projection, likelihood) is unchanged -/
+theorem C03_spectrum_scale {α : Type} (S : (List ℕ → ℚ) → α) (grids : List (Array ℚ)) (fr nm : List Bool) (use : Bool)
+    (eps : ℕ → List ℕ → ℕ → ℚ) (tf : ℚ) (P : StepParams) (T k : ℚ) (hk : 0 < k) (fuel : ℕ) (t : ℚ) (φ : List ℕ → ℚ) :
+    S (integrateConst (sweepFn grids fr nm use eps) tf (P.scaled k) (k * T) fuel (k * t) φ)
+      = S (integrateConst (sweepFn grids fr nm use eps) tf P T fuel t φ) := by
+  rw [C03_integrate_scale_const _ _ _ _ _ _ _ _ _ hk]
+
+/-- non-vacuity of `hS`: evaluation at an index is such a functional -/
+example (idx : List ℕ) : ∀ a b φ ψ, (fun f : List ℕ → ℚ => f idx) (lin a b φ ψ) = a * (fun f : List ℕ → ℚ => f idx) φ + b * (fun f : List ℕ → ℚ => f idx) ψ :=
+  fun _ _ _ _ => rfl
+
 /-! ### the arrays the driver actually computes
 The statements above are about the functional form `sweepFn`.  The executable model tabulates after every injection and every
 axis (`sweep`, `integrateConst (sweep …)`): these theorems show that every in-box entry of the tabulated result is the value of
